@@ -70,6 +70,18 @@ def generate(g, tier):
                 j = r.randrange(len(text)); text = text[:j] + r.choice(['"', '(', ')', '$', ',', '\t', '"""', '\n', ' ', '²', ' ', '\r', '\x0c']) + text[j:]
             case = dict(op='compile', opts=g.options(), src=dict(text=text), meta=dict(family='edited'))
         cases.append(case)
+    # a fixed set of edge expressions in every evaluating context (always run)
+    EDGE = ['()', '( )', '(())', '((', '))', '(', ')', '', ' ', '!', '!()', '!( )', '""', '"', '"' * 3, '-', '.', '-.', '1 +', '+ 1', '1 + + 2', ',', '1,', ',1', '1,,2',
+            '(1,2),', 'TRUE FALSE', '1 2', 'a b', '$', '$$', '1 ==', '== 1', '<', '<=', '//', '^', '1 ^ ^ 2', '(1)(2)', '()()', '1()', '"a""b"', '"a" "b"', '5.5.5', '..', '1..2',
+            '0-', '-(1)', '!1', '!"a"', 'TRUE(1)', '((((((((((1))))))))))', '( 1 , 2 ) + 1', '(1,2)*2', '2*(1,2)', '(1,2)==(1,2)', '(1,2)<(1,3)', '"a"*3', '3*"a"', '"a"*"b"', 'TRUE+TRUE',
+            'TRUE*2', '2*TRUE', '1/TRUE', '1/FALSE', '1%FALSE', '1//FALSE', '2^"a"', '"a"^2', '2^(1,2)', '0^0', '0^(0-1)', '(0-8)^0.5', '10^400', '10.0^400', '2^0.5']
+    CTX = ['$STRING {}', 'VAR v {}', 'IF {}\n    STRING a', 'ELIF {}\n    STRING a', 'WHILE {}\n    BREAKLOOP', 'WHILE i,{}\n    BREAKLOOP', 'REPEAT {}\n    STRING a',
+           'REPEAT i,{}\n    STRING a', 'DELAY {}', '$ENTER {}', 'FUNC f a\n    STRING x\nRUN f {}', 'RETURN {}', '$PRINT {}', '$HOLD {}', 'WHITESPACE {}', '$GUI {}',
+           'DEFAULT_DELAY {}', '$ALTCHAR {}']
+    for e in EDGE:
+        for cx in CTX:
+            if cx.startswith('$ENTER') and e == '10^400': continue      # the D19 probe below covers huge counts
+            cases.append(dict(op='compile', src=dict(text=cx.format(e)), meta=dict(family='edge')))
     # known-finding probes (each costs a timeout or a deep recursion): a few per run
     cases.append(dict(op='compile', src=dict(text='$STRING 10^5000'), meta=dict(family='probe', probe='huge-int-str', nocorr=True)))
     cases.append(dict(op='compile', src=dict(text='$STRING ²'), meta=dict(family='probe', nocorr=True)))
